@@ -474,7 +474,7 @@ def _f_worker(args):
                              tuple((n_["blocking"], n_["outsel"][0], n_["wcap"]) for n_ in c["nodes"])))
             if r["dis"]:
                 k, a, b = r["dis"]
-                kinds = {str(x).split()[0] for x in (a, b) if x}
+                kinds = {str(x).split()[0] for x in (a, b) if x} | set(r.get("kinds", ()))
                 if pid == "C14":
                     # only movements over Fleet edges concern C14
                     kinds = {str(x).split()[0] for x in (a, b) if x and str(x).split()[0] in ("P", "T")
